@@ -295,6 +295,25 @@ def check(run, only_cases=None):
         except Exception:
             return None
 
+    # ---------------- a listed finding suppresses only while its own witness still fails (DESIGN 2.7) ----------------
+    live_classes, stale = set(), []
+    for k in common.load_known_findings():
+        if k.get('property') != run.prop or k.get('status', 'open') != 'open':
+            continue
+        w = k.get('witness', {})
+        try:
+            dw = direct({'key': 'witness:' + k['id'], 'src': w['src'], 'cfg': w.get('cfg'), 'stream': 'witness'})
+            fails = dw['res'][0] == 'ok' and bool(dw['diffs'] or dw['problems'])
+        except Exception:
+            fails = False
+        if fails:
+            live_classes.add(k['class'])
+        else:
+            stale.append(k['id'])
+    run.cov['known_finding_witnesses_still_failing'] = sorted(live_classes)
+    if stale:
+        run.notes.append('listed findings whose witness no longer fails (they suppress nothing): %s' % stale)
+
     # ---------------- classify failing inputs of the direct oracle ----------------
     hazfree = 0
     hazcount = collections.Counter()
@@ -313,7 +332,8 @@ def check(run, only_cases=None):
         if d['diffs']:
             cls = None
             if hz:
-                cls = next((h for h in CLASS_ORDER if h in hz), hz[0])
+                cands = [h for h in CLASS_ORDER if h in hz and h in live_classes]
+                cls = cands[0] if cands else None
             rec = case_record(c, d)
             rec['diff'] = d['diffs'][0]
             rec['hazards'] = hz
